@@ -189,8 +189,17 @@ def _single(d, what):
 def run_text(c):
     """one rule line through the three rule-text compilers"""
     vendor, rows = c["vendor"], c["rows"]
-    pb = rb_patching.compile_patching_text(c["raw_p"] + "\n", vendor)
-    _, prule = _single({**pb["local"], **pb["global"]}, "patching")
+    if c.get("neighbours"):
+        # the same rule line between two unrelated rules (the first one with an inline flag, neither with %params):
+        # what a rule means must not depend on the lines around it
+        lead = c["raw_p"][:len(c["raw_p"]) - len(c["raw_p"].lstrip(" \t"))]      # same margin: siblings, not children
+        text = lead + "(?i)zzdecoy *\n" + c["raw_p"] + "\n" + lead + "zzafter *\n"
+        pb = rb_patching.compile_patching_text(text, vendor)
+        both = {k: v for k, v in {**pb["local"], **pb["global"]}.items() if "zzdecoy" not in k and "zzafter" not in k}
+        _, prule = _single(both, "patching")
+    else:
+        pb = rb_patching.compile_patching_text(c["raw_p"] + "\n", vendor)
+        _, prule = _single({**pb["local"], **pb["global"]}, "patching")
     pa = prule["attrs"]
     out = {"patch": _apply(pa["regexp"], pa["reverse"], c["fkey"], rows)}
     ab = rb_acl.compile_acl_text(c["raw_a"] + "\n", vendor)
